@@ -151,13 +151,43 @@ fn p_str_views() {
     kani::cover!(a == 0 && b == 4, "whole string");
 }
 
+/// the views are oblivious to CONTENT: symbolic 7-bit bytes (every one of them valid UTF-8 on its
+/// own, including NUL, whitespace and control characters), every sub-string
+#[kani::proof]
+#[kani::unwind(6)]
+fn p_str_any_ascii() {
+    let mut buf: [u8; 4] = kani::any();
+    kani::assume(buf[0] < 0x80 && buf[1] < 0x80 && buf[2] < 0x80 && buf[3] < 0x80);
+    let (off, len): (usize, usize) = kani::any();
+    kani::assume(off <= 4 && len <= 4 - off);
+    let idx: usize = kani::any();
+    let copy = buf;
+    {
+        let s = unsafe { core::str::from_utf8_unchecked(&buf[off..off + len]) };
+        let back = unsafe { CSliceRef::from_str(s).into_str() };
+        assert!(back.as_ptr() == s.as_ptr() && back.len() == len, "C12 into_str gives the same string whatever its bytes are (NUL, whitespace, control characters)");
+        let c2: CSliceRef<u8> = s.into();
+        let back2 = unsafe { c2.into_str() };
+        assert!(back2.as_ptr() == s.as_ptr() && back2.len() == len, "C12 From<&str> then into_str gives the same string whatever its bytes are");
+        if idx < len { assert!(back.as_bytes()[idx] == copy[off + idx], "C12 same bytes"); }
+    }
+    let p = buf.as_mut_ptr();
+    let m = CSliceMut::from(&mut buf[off..off + len]);
+    let sm = unsafe { m.into_mut_str() };
+    assert!(sm.as_mut_ptr() == unsafe { p.add(off) } && sm.len() == len, "C12 into_mut_str gives the same string whatever its bytes are");
+    let m2 = CSliceMut::from(&mut buf[off..off + len]);
+    let s2 = unsafe { m2.into_str() };
+    assert!(s2.as_ptr() == unsafe { p.add(off) } as *const u8 && s2.len() == len, "C12 CSliceMut::into_str gives the same string whatever its bytes are");
+    kani::cover!(len == 3 && copy[off + 2] == 0, "ends in NUL");
+    kani::cover!(len == 4 && copy[0] == b' ', "starts with a space");
+}
 /// concrete strings (constant-folded by CBMC, so this stays decidable whatever the implementation does)
 #[kani::proof]
 fn p_str_concrete() {
-    let cases: [&str; 5] = ["", "a", "\u{df}", "na\u{ef}ve caf\u{e9}", "a\u{df}\u{20ac}b\u{1F600}"];
-    let lens: [usize; 5] = [0, 1, 2, 12, 11];
+    let cases: [&str; 9] = ["", "a", "\u{df}", "na\u{ef}ve caf\u{e9}", "a\u{df}\u{20ac}b\u{1F600}", "ab\0", "\0", "\u{feff}x", " x\n"];
+    let lens: [usize; 9] = [0, 1, 2, 12, 11, 3, 1, 4, 3];
     let mut i = 0;
-    while i < 5 {
+    while i < 9 {
         let s = cases[i];
         let c = CSliceRef::from_str(s);
         assert!(c.len() == lens[i] && c.as_ptr() == s.as_ptr(), "C12 from_str keeps address and BYTE length (non-ASCII)");
